@@ -12,7 +12,7 @@ m = {
  "version": 1,
  "setup_cmd": "./setup.sh",
  "hooks": {"guard": "CLASSY_BLOCKS_VERIF", "enable": "no hooks are needed: the harness imports /repo/src in-process (PYTHONPATH) and reads internals directly", "baseline_off_cmd": "./tools/baseline.sh", "source_commits": [], "add_only": True},
- "engines": [{"name": "cbv", "path": "cbv/core.py", "serves_properties": sorted(checks), "kind_free_text": "Lean 4 library lean/CBV (models, theorems, generated tables) + python differential harness + direct oracles"}],
+ "engines": [{"name": "cbv", "path": "cbv/core.py", "serves_properties": sorted(checks), "kind_free_text": "Lean 4 library lean/CBV (hand-written executable models, theorems, tables and expression/guard/statement trees regenerated from the current source on every run by cbv/gen_tables.py + cbv/tables) + python differential correspondence through a line protocol + direct oracles and failing-input search"}],
  "checks": [checks[p['id']] for p in props if p['id'] in checks],
  "notes": "See DESIGN.md. Genuine defects repaired in /repo are listed in known_findings.json under 'fixed'; recorded ones under 'findings'.",
  "not_applicable": [{"property_id": p['id'], "reason": na_reasons.get(p['id'], "check not built yet in this round (work in progress, see DESIGN.md section 10 for the order of work)")} for p in props if p['id'] not in checks],
